@@ -285,7 +285,8 @@ def make_input(rng, fam):
     elif fam == 'huge':
         Y[int(rng.integers(d))] *= 1e100
     elif fam == 'tiny':
-        Y[int(rng.integers(d))] *= 1e-100
+        # 1e-150: the whole core lies below core_stab's threshold (1e-100)
+        Y[int(rng.integers(d))] *= float(rng.choice([1e-100, 1e-150]))
     info['family'] = fam
     return Y, info
 
@@ -341,6 +342,22 @@ def run_case(case, ctx):
             if i >= 1:
                 Z = [G.copy() for G in Y]
                 teneva.orthogonalize_right(Z, i, inplace=inplace)
+    # the same core OBJECT at several positions of the list (a periodic
+    # tensor [G0, G, G, ..., Gd]) in Fortran order: an in-place step may
+    # replace cores i, i+-1 but must not write into the shared array
+    if d >= 4 and case['family'] in ('generic', 'd2', 'rank1', 'decay'):
+        rr = int(rng.integers(1, 4))
+        nm = int(rng.integers(2, 4))
+        Gm = np.asfortranarray(rng.normal(size=(rr, nm, rr)))
+        Yp = [np.asfortranarray(rng.normal(size=(1, nm, rr)))] + \
+            [Gm] * (d - 2) + [np.asfortranarray(rng.normal(size=(rr, nm, 1)))]
+        for i in range(d):
+            for inplace in (True, False):
+                if i <= d - 2:
+                    teneva.orthogonalize_left(list(Yp), i, inplace)
+                if i >= 1:
+                    teneva.orthogonalize_right(list(Yp), i, inplace)
+        ctx.event('shared-core-object-steps')
     for bad in (None, -1, d - 1, d):
         expect_reject(ctx, lambda: teneva.orthogonalize_left(Y, bad),
             f'orthogonalize_left(i={bad}), d={d}')
